@@ -9,7 +9,7 @@ EXTRA_PROP_FILES = ['Props/C10Connect.v']
 EVAL_FILES = ['Oracle/C10Oracle.v', 'Oracle/C10CncOracle.v']
 CRATES = ['c09', 'c10cnc']
 MODES = ['debug']
-IMPORTS = ('Require Import V.Base.MachineInt V.Model.Conductor V.Oracle.C09Oracle V.Oracle.C10Oracle '
+IMPORTS = ('Require Import V.Base.MachineInt V.Model.Conductor V.Model.ConductorReent V.Oracle.C09Oracle V.Oracle.C10Oracle '
            'V.Model.Connect V.Model.CncLayout V.Model.Agent V.Oracle.C10CncOracle.')
 PER_CASE_TIMEOUT = 8.0
 CHUNK = 40
@@ -29,8 +29,9 @@ RULE = ('fault histories of up to 70 operations on a full in-process client (har
         'for every idle strategy of the crate')
 ASSUMPTIONS = [
     'driver events are well formed (ASCII strings, counter ids inside the counters buffer, existing log file, exclusive-publication answers '
-    'with registration id = correlation id, known message type ids - C14); error code 4 (channel endpoint) is not generated',
-    'the command ring either has room or (SetRingFull) refuses every command - its capacity arithmetic is C06\'s; strings fit the 512-byte scratch buffer (C13); callbacks do not call back into the client',
+    'with registration id = correlation id, known message type ids - C14); an ErrorResponse with error code 4 (channel endpoint error) carries a channel status indicator id in its correlation-id field (generated: ids of live resources, other ids, ids that only agree as i32)',
+    'the command ring either has room or (SetRingFull) refuses every command - its capacity arithmetic is C06\'s; a command that does not fit the 512-byte scratch buffer is refused with IllegalArgument (boundary cases generated); '
+    'callbacks that call back into the client are generated (op cs): they dead-lock - finding reentrant-call-deadlock, theorems C10_reentrant_call_deadlocks / C10_total_unless_reentrant',
     'the clock stays below 2^62 and above the linger time-out, so that now_ms - linger does not underflow (C11/C12)',
     'one thread drives the client: real scheduling of the agent thread against API threads and lock-order questions are outside the model',
     'connect loop: 0 <= media driver time-out <= clock value (Unix ms) < 2^64 and start + time-out < 2^64, so that the u64 arithmetic of the source is '
@@ -53,6 +54,9 @@ def generate(rng, tier):
     n = 500 if tier != 'thorough' else 20000
     for _ in range(n):
         cases.append(cc.gen_history(rng, tier, 'faults' if rng.random() < 0.8 else 'protocol'))
+    # callbacks that call back into the client (finding reentrant-call-deadlock): scripted, then random insertions
+    cases += cc.scripted_reent()
+    cases += cc.reent_histories(rng, 16 if tier != 'thorough' else 300)
     # the code around the conductor; own random stream, so that the histories above stay what they were
     import random
     cases += cn.generate(random.Random(rng.getrandbits(32) ^ 0xC10), tier)
@@ -76,6 +80,28 @@ def shrink(case):
 
 
 normalize = cc.normalize
+
+
+def known_class(case, mode, obs):
+    if _mine(case):
+        return None
+    return 'reentrant-call-deadlock' if cc.reentrant_deadlock(case, obs) else None
+
+
+def extra_checks(run):
+    import os
+    import re
+    from vlib import core
+    # K1-reentrant: ensure_not_reentrant as the model describes it (reports through the error handler, does not refuse), and the
+    # conductor behind a std Mutex (the second lock of a callback's re-entrant call is what never returns)
+    src = open(os.path.join(core.REPO, 'src', 'client_conductor.rs')).read().split('#[cfg(test)]')[0]
+    norm = re.sub(r'\s+', ' ', src)
+    want = 'pub fn ensure_not_reentrant(&self) { if self.is_in_callback { let err = AeronError::ReentrantException; self.error_handler.call(err); } }'
+    aeron = re.sub(r'\s+', ' ', open(os.path.join(core.REPO, 'src', 'aeron.rs')).read())
+    ok = want in norm and 'conductor: Arc<Mutex<ClientConductor>>' in aeron and 'use std::sync::{Arc, Mutex}' in aeron.replace('Mutex, Arc', 'Arc, Mutex')
+    return [cc.hook_note(),
+            (ok, 'K1-reentrant', 'ensure_not_reentrant only reports to the error handler; Aeron holds the conductor as Arc<std::sync::Mutex<ClientConductor>>'
+             if ok else 'ensure_not_reentrant or the conductor lock changed: Model/ConductorReent.v no longer describes the source')]
 
 
 def oracle_expr(case, mode, obs):
